@@ -519,12 +519,28 @@ func check(c queryCase) (fl *harness.Failure, nontrivial bool) {
 	}
 	e, _ := q.NewParser().ParseString(query)
 	d := c.Doc.Doc()
+	before := docViews(d)
 	r1, err1 := e.Evaluate([]*gedcom.Document{d})
 	r2, err2 := e.Evaluate([]*gedcom.Document{d})
 	_, s1, _ := normalise(r1)
 	_, s2, _ := normalise(r2)
 	if err1 != nil || err2 != nil || s1 != s2 || s1 != gs {
 		return harness.Failf("engine-reuse", "query %q: evaluating the same engine twice gives %s (%v) and %s (%v)", query, trunc(s1), err1, trunc(s2), err2), false
+	}
+	// "the same query on the same document always returns the same result" for every query,
+	// not only for this one: evaluating a query leaves the document as the Go API shows it
+	// unchanged (a result that aliases a slice the document holds must not be written to)
+	if after := docViews(d); after != before {
+		return harness.Failf("query-changes-document", "after evaluating %q the document reads differently through the Go API\nbefore:\n%s\nafter:\n%s", query, before, after), false
+	}
+	for _, probe := range []string{".Individuals | .Pointer", ".Families | .Pointer", ".Nodes | .Pointer"} {
+		wantP, _ := evalJSON(probe, c.Doc)
+		e2, _ := q.NewParser().ParseString(probe)
+		rp, errp := e2.Evaluate([]*gedcom.Document{d})
+		gotP, _, _ := normalise(rp)
+		if errp != nil || !sameJSON(gotP, wantP) {
+			return harness.Failf("query-changes-document", "after evaluating %q on a document, %q gives %v on it and %v on a fresh copy (%v)", query, probe, gotP, wantP, errp), false
+		}
 	}
 	// metamorphic relations
 	if f := metamorphic(c, query, gn); f != nil {
@@ -533,6 +549,26 @@ func check(c queryCase) (fl *harness.Failure, nontrivial bool) {
 	l, isL := gn.([]interface{})
 	_, isM := gn.(map[string]interface{})
 	return nil, ((isL && len(l) > 0) || isM) && len(c.Program.Main) >= 3
+}
+
+// docViews is what the Go API shows of a document: its text and the pointer lists of
+// the three views that queries start from.
+func docViews(d *gedcom.Document) string {
+	var b strings.Builder
+	b.WriteString(d.String())
+	b.WriteString("nodes:")
+	for _, n := range d.Nodes() {
+		b.WriteString(" " + n.Tag().Tag() + n.Pointer())
+	}
+	b.WriteString("\nindividuals:")
+	for _, n := range d.Individuals() {
+		b.WriteString(" " + n.Pointer())
+	}
+	b.WriteString("\nfamilies:")
+	for _, n := range d.Families() {
+		b.WriteString(" " + n.Pointer())
+	}
+	return b.String()
 }
 
 // firstLastOfEmptyThenLength: the main pipeline applies First or Last to a list
